@@ -100,6 +100,13 @@ pub struct FieldSpec {
     pub val: ValSpec,
     /// 0x20 bytes between the value and CRLF
     pub post: usize,
+    /// when set: these bytes (spaces and bare-LF continuations only) stand between ':' and the value
+    /// instead of `pre` spaces - a fold directly after the colon
+    #[serde(default)]
+    pub pre_raw: Option<String>,
+    /// when set: these bytes stand between the value and CRLF instead of `post` spaces
+    #[serde(default)]
+    pub post_raw: Option<String>,
 }
 
 fn fld(name: &str, pre: usize, val: &[u8], post: usize) -> FieldSpec {
@@ -108,6 +115,8 @@ fn fld(name: &str, pre: usize, val: &[u8], post: usize) -> FieldSpec {
         pre,
         val: ValSpec::Lit(val.to_vec()),
         post,
+        pre_raw: None,
+        post_raw: None,
     }
 }
 
@@ -180,9 +189,15 @@ pub fn build(spec: &HeadSpec) -> Built {
         let val = f.val.bytes();
         w.extend_from_slice(f.name.as_bytes());
         w.push(b':');
-        w.extend(std::iter::repeat(b' ').take(f.pre));
+        match &f.pre_raw {
+            Some(r) => w.extend_from_slice(r.as_bytes()),
+            None => w.extend(std::iter::repeat(b' ').take(f.pre)),
+        }
         w.extend_from_slice(&val);
-        w.extend(std::iter::repeat(b' ').take(f.post));
+        match &f.post_raw {
+            Some(r) => w.extend_from_slice(r.as_bytes()),
+            None => w.extend(std::iter::repeat(b' ').take(f.post)),
+        }
         w.extend_from_slice(b"\r\n");
         line_ends.push(w.len());
         // the oracle: from the field list alone
@@ -795,6 +810,72 @@ pub fn space() -> Vec<HeadSpec> {
             head_method: false,
         });
     }
+    // (F) a fold directly after the colon / a value ending in a blank continuation line: the LF
+    // becomes a space first, then surrounding spaces are stripped
+    let edge = |name: &str, pre: &str, val: &[u8], post: &str| FieldSpec {
+        name: name.to_string(),
+        pre: 0,
+        val: ValSpec::Lit(val.to_vec()),
+        post: 0,
+        pre_raw: Some(pre.to_string()),
+        post_raw: Some(post.to_string()),
+    };
+    let edge_fields = vec![
+        edge("X-Fold", "\n ", b"on-the-next-line", ""),
+        edge("X-Fold", " \n  ", b"v w", " "),
+        edge("X-Fold", "", b"a", "\n "),
+        edge("X-Fold", " ", b"a\n b", " \n  "),
+        edge("X-Fold", "\n", b"x", "\n"),
+        edge("X-Fold", "\n \n ", b"", ""),
+    ];
+    for f in &edge_fields {
+        for extra in [None, Some(fld("X-Next", 1, b"n", 0))] {
+            let mut fields = vec![fld("X-Prev", 1, b"p", 0), f.clone()];
+            fields.extend(extra);
+            v.push(HeadSpec {
+                group: "te".into(),
+                version: "HTTP/1.1".into(),
+                code: 200,
+                reason: Reason::Text(b"OK".to_vec()),
+                fields,
+                body: b"xyz".to_vec(),
+                max_headers: None,
+                reject: false,
+                head_method: false,
+            });
+        }
+    }
+    // (G) fields the framing / decoding layers look at are still reported exactly as sent:
+    // repeated equal Content-Length fields, a non-canonical spelling, the fields of a coded body
+    let gz: Vec<u8> = {
+        use std::io::Write;
+        let mut e = flate2::write::GzEncoder::new(Vec::new(), flate2::Compression::new(6));
+        e.write_all(b"hello").unwrap();
+        e.finish().unwrap()
+    };
+    let gzl = gz.len().to_string();
+    let framing_lists: Vec<(Vec<FieldSpec>, Vec<u8>)> = vec![
+        (vec![fld("Content-Length", 1, b"3", 0), fld("Content-Length", 1, b"3", 0)], b"xyz".to_vec()),
+        (vec![fld("X-A", 1, b"1", 0), fld("content-length", 1, b"3", 0), fld("X-B", 1, b"2", 0), fld("Content-Length", 2, b"3", 1)], b"xyz".to_vec()),
+        (vec![fld("Content-Length", 1, b"003", 0)], b"xyz".to_vec()),
+        (vec![fld("Content-Length", 1, b"0003", 0), fld("Content-Length", 1, b"0003", 0)], b"xyz".to_vec()),
+        (vec![fld("Content-Encoding", 1, b"gzip", 0), fld("Content-Length", 1, gzl.as_bytes(), 0)], gz.clone()),
+        (vec![fld("Content-Length", 1, gzl.as_bytes(), 0), fld("content-encoding", 1, b"GZip", 0), fld("Vary", 1, b"Accept-Encoding", 0)], gz.clone()),
+        (vec![fld("Content-Encoding", 1, b"identity", 0), fld("Content-Length", 1, b"3", 0)], b"xyz".to_vec()),
+    ];
+    for (fields, body) in framing_lists {
+        v.push(HeadSpec {
+            group: "te".into(),
+            version: "HTTP/1.1".into(),
+            code: 200,
+            reason: Reason::Text(b"OK".to_vec()),
+            fields,
+            body,
+            max_headers: None,
+            reject: false,
+            head_method: false,
+        });
+    }
     // (B) all lists of length 3
     for a in &menu {
         for b in &menu {
@@ -823,6 +904,8 @@ pub fn space() -> Vec<HeadSpec> {
                 pre: 1,
                 val: ValSpec::Pattern { len: 16000, shift: 0, lf },
                 post: 0,
+                pre_raw: None,
+                post_raw: None,
             },
             fld("x-pre", 1, b"q", 0),
         ]));
@@ -840,6 +923,8 @@ pub fn space() -> Vec<HeadSpec> {
                 },
                 post: 0,
                 name,
+                pre_raw: None,
+                post_raw: None,
             }
         })
         .collect();
